@@ -328,8 +328,7 @@ def _unpack_of_literal_map(tree):
                         st.value = ast.copy_location(ast.Tuple(elts=[_SubstName(g.target.id, e).visit(copy.deepcopy(st.value.elt)) for e in g.iter.elts],
                                                                ctx=ast.Load()), st.value)
                 if isinstance(st, ast.Assign) and len(st.targets) == 1 and isinstance(st.targets[0], ast.Tuple) and isinstance(st.value, ast.Tuple) \
-                        and len(st.targets[0].elts) == len(st.value.elts) and all(isinstance(e, ast.Name) for e in st.targets[0].elts) \
-                        and any(isinstance(e, ast.Call) for e in st.value.elts):
+                        and len(st.targets[0].elts) == len(st.value.elts) and all(isinstance(e, ast.Name) for e in st.targets[0].elts):
                     tnames = {e.id for e in st.targets[0].elts}
                     if len(tnames) == len(st.targets[0].elts) and not any(isinstance(x, ast.Name) and x.id in tnames for e in st.value.elts for x in ast.walk(e)):
                         for tg, v in zip(st.targets[0].elts, st.value.elts):
